@@ -355,7 +355,7 @@ func (k *checker) handle(box *vmBox, raw []byte) error {
 	n := atomic.AddInt64(&k.n.cases, 1)
 	k.mu.Lock()
 	k.byFam[l.Fam]++
-	if len(k.kept) < 6000 && (n%3 == 0 || l.Fam == "str") {
+	if l.Fam != "parse" || l.Rep > 1 { // the explicit families (deterministic content)
 		k.kept = append(k.kept, raw)
 	}
 	k.mu.Unlock()
@@ -885,44 +885,68 @@ func (k *checker) randomTrees() error {
 // deliberately wrong JSON adapters; every mutant must be rejected by at least
 // one case (BUILDING.md, definition of done 3).
 func (k *checker) selfTest() (map[string]any, error) {
+	type kc struct {
+		l      Line
+		src    string
+		consts map[string]float64
+	}
+	// only cases the unchanged runtime passes without the judge are replayed
+	var cases []kc
+	plain := &vmBox{}
+	for _, raw := range k.kept {
+		var l Line
+		if json.Unmarshal(raw, &l) != nil {
+			continue
+		}
+		src, consts, err := gen.Render(l.Js)
+		if err != nil {
+			continue
+		}
+		cls0, _, err := classify(plain, &l, src, consts)
+		if err != nil {
+			return nil, err
+		}
+		if cls0 == "conform" {
+			cases = append(cases, kc{l, src, consts})
+		}
+	}
 	res := map[string]any{}
+	var mu sync.Mutex
+	var wg sync.WaitGroup
+	var firstErr error
 	for _, m := range mutants {
-		box, plain := &vmBox{extra: m.JS}, &vmBox{}
-		rejected, total := 0, 0
-		first := ""
-		for _, raw := range k.kept {
-			var l Line
-			if json.Unmarshal(raw, &l) != nil {
-				continue
-			}
-			src, consts, err := gen.Render(l.Js)
-			if err != nil {
-				continue
-			}
-			// only cases the unchanged runtime passes without the judge are replayed
-			cls0, _, err := classify(plain, &l, src, consts)
-			if err != nil {
-				return nil, err
-			}
-			if cls0 != "conform" {
-				continue
-			}
-			total++
-			cls, _, err := classify(box, &l, src, consts)
-			if err != nil {
-				return nil, err
-			}
-			if cls != "conform" && cls != "dev" { // dev: the member order of parse results varies from run to run
-				rejected++
-				if first == "" {
-					first = src
+		wg.Add(1)
+		go func() {
+			defer wg.Done()
+			box := &vmBox{extra: m.JS}
+			rejected := 0
+			first := ""
+			for i := range cases {
+				cls, _, err := classify(box, &cases[i].l, cases[i].src, cases[i].consts)
+				if err != nil {
+					mu.Lock()
+					firstErr = err
+					mu.Unlock()
+					return
+				}
+				if cls != "conform" && cls != "dev" { // dev: the member order of parse results varies from run to run
+					rejected++
+					if first == "" {
+						first = cases[i].src
+					}
 				}
 			}
-		}
-		res[m.Name] = map[string]any{"cases_replayed": total, "rejected": rejected, "first_rejected": first}
-		if rejected == 0 {
-			return nil, fmt.Errorf("binding self-test: the wrong adapter %q was not rejected by any of %d cases", m.Name, total)
-		}
+			mu.Lock()
+			res[m.Name] = map[string]any{"cases_replayed": len(cases), "rejected": rejected, "first_rejected": first}
+			if rejected == 0 && firstErr == nil {
+				firstErr = fmt.Errorf("binding self-test: the wrong adapter %q was not rejected by any of %d cases", m.Name, len(cases))
+			}
+			mu.Unlock()
+		}()
+	}
+	wg.Wait()
+	if firstErr != nil {
+		return nil, firstErr
 	}
 	return res, nil
 }
